@@ -316,6 +316,10 @@ def explain(fname, call):
             sym = "".join(SIGN_ALPHABET[c] for c in args[1:6][: args[0]])
             got = [list(ops)[0].symbol for _, ops in r.resolve(Token(sym, kind="operator"))]
             return f"sign-run: resolve({sym!r}) yields {got}, parity collapsing gives {_sign_reference(sym)}"
+        if fname == "identity":
+            l, r = IDENTITIES[args[0]]
+            sub = dict(x="abc"[args[1]], y="abc"[args[2]], z="abc"[args[3]])
+            return f"identity: {l.format(**sub)!r} gives {_norm(l.format(**sub))} but {r.format(**sub)!r} gives {_norm(r.format(**sub))}"
     except Exception as e:
         return f"{fname}{args}: {type(e).__name__}: {e}"
     return f"{fname} fails for {args}"
